@@ -319,8 +319,10 @@ def specC06 (inp impl : Json) : String :=
     | b :: _ => b
     | [] =>
       -- LIMIT / OFFSET placeholders
+      -- (of the statement itself and of every sub-select, wherever it sits)
       let stmt := if sc.src.isKind "RawStmt" then sc.src.get "Stmt" else sc.src
-      let lim := ([stmt.get "LimitCount", stmt.get "LimitOffset"].filterMap paramOf).map (·.1)
+      let lim := (([stmt] ++ sc.src.search (fun x => x.isKind "SelectStmt")).flatMap (fun st =>
+        ([st.get "LimitCount", st.get "LimitOffset"].filterMap paramOf).map (·.1))).eraseDups
       let lbad := lim.filterMap (fun n =>
         if countParam n sc.src != 1 then none else
         match (params.zipIdx).find? (fun (pj, _) => jnat pj "number" == n) with
